@@ -1592,13 +1592,14 @@ func ruleCSVFields(c *Ctx, r *Rep, tier string) {
 //
 // Decided in internal.(*Index).Add on the shape of every write to
 // Reference.Intervals:
-//   #no-truncation   no re-slice of the list with an upper bound flows back into
-//                    the field;
-//   #no-overwrite    no element of the list as held is stored to in place;
-//   #extends~k       where a new, longer list is built: the old one is copied to
-//                    its front before it is installed, and every element store
-//                    uses an index whose first value is the larger of the
-//                    record's first tile and the old length.
+//
+//	#no-truncation   no re-slice of the list with an upper bound flows back into
+//	                 the field;
+//	#no-overwrite    no element of the list as held is stored to in place;
+//	#extends~k       where a new, longer list is built: the old one is copied to
+//	                 its front before it is installed, and every element store
+//	                 uses an index whose first value is the larger of the
+//	                 record's first tile and the old length.
 func ruleLinearKeep(c *Ctx, r *Rep, tier string) {
 	rule := "LINEAR-KEEP"
 	fn := c.Func("internal", "(*Index).Add")
